@@ -21,5 +21,6 @@ pub assume_specification<T, P: FnOnce(&T) -> bool>[ Option::<T>::filter::<P> ](o
     };
 pub assume_specification<T: Eq + Hash, const N: usize>[ <HashSet<T> as From<[T; N]>>::from ](arr: [T; N]) -> (r: HashSet<T>)
     ensures r@ == arr@.to_set();
+pub assume_specification[ <i64 as From<u32>>::from ](x: u32) -> (r: i64) ensures r == x as i64;
 // Vec lengths never exceed usize::MAX (std: capacity <= isize::MAX)
 pub axiom fn axiom_vec_len_bound<T>(v: &Vec<T>) ensures v@.len() <= usize::MAX;
